@@ -72,7 +72,7 @@ def compile_prql(prql, target=None, fmt=False):
     if r.returncode == 0:
         return True, r.stdout
     txt = r.stderr + r.stdout
-    if "panicked at" in txt:
+    if "panicked" in txt:
         txt = "PANIC " + txt
     return False, txt
 
